@@ -216,6 +216,34 @@ theorem ofId_cases (id : Nat) :
   repeat' split
   all_goals first | exact Or.inl ⟨_, rfl⟩ | exact Or.inr rfl
 
+/-- model SCD kind of a reference acknowledge kind -/
+def ofKind : AckKind → ScdKind
+  | .readMem => .readMem
+  | .writeMem => .writeMem
+  | .pending => .pending
+  | .readMemStacked => .readMemStacked
+  | .writeMemStacked => .writeMemStacked
+
+/-- what the reference says `ScdKind::parse` must return for a command id -/
+def specKind (id : Nat) : R ScdKind :=
+  match ackKindOfId id with
+  | some k => .ok (ofKind k)
+  | none => .err .invalidPacket
+
+theorem ofId_eq_spec (id : Nat) : ScdKind.ofId id = specKind id := by
+  simp only [ScdKind.ofId, specKind, ackKindOfId, ackKindTable, lookupId]
+  by_cases c0 : id = 0x0801
+  · subst c0; rfl
+  by_cases c1 : id = 0x0803
+  · subst c1; rfl
+  by_cases c2 : id = 0x0805
+  · subst c2; rfl
+  by_cases c3 : id = 0x0807
+  · subst c3; rfl
+  by_cases c4 : id = 0x0809
+  · subst c4; rfl
+  simp only [if_neg c0, if_neg c1, if_neg c2, if_neg c3, if_neg c4]
+
 /-! ### acknowledge header: closed formula -/
 
 /-- What `AckPacket::parse` computes once 12 bytes are present. -/
@@ -264,7 +292,7 @@ theorem parseReservedU16_eq (buf : Bytes) :
   | (have a2 : ¬ buf.length < 2 := by omega
      have a4 : ¬ buf.length < 4 := by omega
      simp (disch := omega) only [parseReservedU16, readLE_ok, Res.bind_ok, Res.pure_eq,
-       Nat.zero_add, Nat.reduceAdd, hr, a2, a4, ne_eq, not_true_eq_false, not_false_eq_true,
+       Nat.zero_add, hr, a2, a4, ne_eq, not_true_eq_false, not_false_eq_true,
        if_true, if_false])
   | (have a2 : ¬ buf.length < 2 := by omega
      have a4 : buf.length < 4 := by omega
@@ -314,7 +342,7 @@ theorem stackedOk_succ (buf : Bytes) (pos k : Nat) :
 
 /-- Complete characterisation of the loop on `k` entries. -/
 theorem stackedLoop_spec (p : Profile) (buf : Bytes) (k : Nat) :
-    ∀ (fuel pos : Nat), k < fuel → pos ≤ buf.length →
+    ∀ (fuel pos : Nat), buf.length - pos < fuel → pos ≤ buf.length →
       (StackedOk buf pos k →
         writeMemStackedLoop p fuel ⟨buf, pos⟩ (4 * k) = .ok (stackedLengthsAt buf pos k)) ∧
       (¬ StackedOk buf pos k → IsErr (writeMemStackedLoop p fuel ⟨buf, pos⟩ (4 * k))) := by
@@ -363,5 +391,406 @@ theorem stackedLoop_spec (p : Profile) (buf : Bytes) (k : Nat) :
       · refine ⟨fun h => by omega, fun _ => ?_⟩
         simp (disch := omega) only [writeMemStackedLoop, hpos, if_true, readLE_err, Res.bind_err]
         exact isErr_err _
+
+/-! ### the event walk -/
+
+/-- one iteration of the `while remained > 0` loop as a closed formula -/
+def eventStep (fuel : Nat) (bs : Bytes) (pos rem : Nat) : R (List EventScd) :=
+  if pos + 12 ≤ bs.length then
+    if uintAt bs pos 2 = 0 then
+      if 12 ≤ rem then
+        if pos + rem ≤ bs.length then
+          .ok [⟨0, uintAt bs (pos + 2) 2, uintAt bs (pos + 4) 8, pos + 12,
+            slice bs (pos + 12) (rem - 12)⟩]
+        else .err .bufferIo
+      else .err .invalidPacket
+    else if 12 ≤ uintAt bs pos 2 then
+      if uintAt bs pos 2 ≤ rem then
+        if pos + uintAt bs pos 2 ≤ bs.length then
+          eventLoop fuel ⟨bs, pos + uintAt bs pos 2⟩ (rem - uintAt bs pos 2) >>= fun rest =>
+            .ok (⟨uintAt bs pos 2, uintAt bs (pos + 2) 2, uintAt bs (pos + 4) 8, pos + 12,
+              slice bs (pos + 12) (uintAt bs pos 2 - 12)⟩ :: rest)
+        else .err .bufferIo
+      else .err .invalidPacket
+    else .err .invalidPacket
+  else .err .bufferIo
+
+theorem eventLoop_zero (fuel : Nat) (c : Cursor) : eventLoop (fuel + 1) c 0 = .ok [] := by
+  simp [eventLoop]
+
+theorem eventLoop_step (fuel : Nat) (bs : Bytes) (pos rem : Nat) (hrem : 0 < rem) :
+    eventLoop (fuel + 1) ⟨bs, pos⟩ rem = eventStep fuel bs pos rem := by
+  by_cases h12 : pos + 12 ≤ bs.length
+  · by_cases hz : uintAt bs pos 2 = 0
+    · by_cases hr : 12 ≤ rem <;> by_cases hl : pos + rem ≤ bs.length <;>
+       (have hl' : bs.length < rem - 12 + (pos + 12) ↔ ¬ pos + rem ≤ bs.length := by omega
+        simp (disch := omega) only [eventLoop, eventStep, hrem, if_true, readLE_ok,
+          Res.bind_ok, Res.bind_err, Res.pure_eq, Nat.add_assoc, Nat.reduceAdd, hz, checkedSub, hr,
+          readAndSeek, hl', hl, h12, not_true_eq_false, not_false_eq_true, if_false, slice])
+    · by_cases hs : 12 ≤ uintAt bs pos 2
+      · by_cases hr : uintAt bs pos 2 ≤ rem <;>
+        by_cases hl : pos + uintAt bs pos 2 ≤ bs.length <;>
+         (have hl' : bs.length < uintAt bs pos 2 - 12 + (pos + 12) ↔
+              ¬ pos + uintAt bs pos 2 ≤ bs.length := by omega
+          have e : pos + (12 + (uintAt bs pos 2 - 12)) = pos + uintAt bs pos 2 := by omega
+          simp (disch := omega) only [eventLoop, eventStep, hrem, if_true, readLE_ok,
+            Res.bind_ok, Res.bind_err, Res.pure_eq, Nat.add_assoc, Nat.reduceAdd, hz, checkedSub, hr,
+            hs, readAndSeek, hl', hl, h12, not_true_eq_false, not_false_eq_true, if_false, slice, e])
+      · simp (disch := omega) only [eventLoop, eventStep, hrem, if_true, readLE_ok,
+          Res.bind_ok, Res.bind_err, Res.pure_eq, Nat.add_assoc, Nat.reduceAdd, hz, checkedSub,
+          hs, h12, if_false]
+  · by_cases h2 : pos + 2 ≤ bs.length <;> by_cases h4 : pos + 4 ≤ bs.length <;>
+    first
+    | (exfalso; omega)
+    | (simp (disch := omega) only [eventLoop, eventStep, hrem, if_true, readLE_ok,
+         readLE_err, Res.bind_ok, Res.bind_err, Nat.add_assoc, Nat.reduceAdd, h12, if_false])
+
+theorem slice_length (bs : Bytes) (off n : Nat) (h : off + n ≤ bs.length) :
+    (slice bs off n).length = n := by
+  simp only [slice, List.length_take, List.length_drop]; omega
+
+/-- the reference view of a model event -/
+def toView (e : EventScd) : EventView :=
+  ⟨e.eventSize, e.eventId, e.timestamp, e.dataOff, e.data.length⟩
+
+/-- the model event of a reference view into `bs` -/
+def ofView (bs : Bytes) (v : EventView) : EventScd :=
+  ⟨v.eventSize, v.eventId, v.timestamp, v.dataOff, slice bs v.dataOff v.dataLen⟩
+
+theorem eventLoop_ne_panic (bs : Bytes) :
+    ∀ fuel pos rem, rem < fuel → eventLoop fuel ⟨bs, pos⟩ rem ≠ .panic := by
+  intro fuel
+  induction fuel with
+  | zero => intro pos rem h; omega
+  | succ fuel ih =>
+    intro pos rem hf
+    by_cases hrem : 0 < rem
+    · rw [eventLoop_step _ _ _ _ hrem]
+      unfold eventStep
+      repeat' split
+      all_goals first
+        | (intro h; cases h; done)
+        | (apply bind_ne_panic
+           · apply ih; omega
+           · intro a _ h; cases h)
+    · have : rem = 0 := by omega
+      subst this
+      rw [eventLoop_zero]; intro h; cases h
+
+theorem eventLoop_sound (bs : Bytes) :
+    ∀ fuel pos rem evs, eventLoop fuel ⟨bs, pos⟩ rem = .ok evs →
+      EventsAt bs pos rem (evs.map toView) ∧
+      ∀ e ∈ evs, e.data = slice bs e.dataOff e.data.length ∧
+        e.dataOff + e.data.length ≤ bs.length := by
+  intro fuel
+  induction fuel with
+  | zero => intro pos rem evs h; simp [eventLoop] at h
+  | succ fuel ih =>
+    intro pos rem evs h
+    by_cases hrem : 0 < rem
+    · rw [eventLoop_step _ _ _ _ hrem] at h
+      unfold eventStep at h
+      split at h
+      · rename_i h12
+        split at h
+        · rename_i hz
+          split at h
+          · rename_i hr
+            split at h
+            · rename_i hl
+              injection h with h
+              subst h
+              have hlen : (slice bs (pos + 12) (rem - 12)).length = rem - 12 :=
+                slice_length _ _ _ (by omega)
+              constructor
+              · simp only [List.map_cons, List.map_nil, toView, hlen]
+                exact EventsAt.single pos rem hz hr hl
+              · intro e he
+                simp only [List.mem_singleton] at he
+                subst he
+                simp only [hlen]
+                exact ⟨trivial, by omega⟩
+            · cases h
+          · cases h
+        · rename_i hz
+          split at h
+          · rename_i hs
+            split at h
+            · rename_i hr
+              split at h
+              · rename_i hl
+                obtain ⟨rest, hrest, h⟩ := bind_eq_ok h
+                injection h with h
+                subst h
+                obtain ⟨ih1, ih2⟩ := ih _ _ _ hrest
+                have hlen : (slice bs (pos + 12) (uintAt bs pos 2 - 12)).length =
+                    uintAt bs pos 2 - 12 := slice_length _ _ _ (by omega)
+                constructor
+                · simp only [List.map_cons, toView, hlen]
+                  exact EventsAt.multi pos rem _ _ rfl hs hr hl ih1
+                · intro e he
+                  rcases List.mem_cons.mp he with rfl | he
+                  · simp only [hlen]
+                    exact ⟨trivial, by omega⟩
+                  · exact ih2 e he
+              · cases h
+            · cases h
+          · cases h
+      · cases h
+    · have : rem = 0 := by omega
+      subst this
+      rw [eventLoop_zero] at h
+      injection h with h
+      subst h
+      exact ⟨EventsAt.done pos, by simp⟩
+
+theorem eventLoop_complete (bs : Bytes) (pos rem : Nat) (vs : List EventView)
+    (h : EventsAt bs pos rem vs) :
+    ∀ fuel, rem < fuel → eventLoop fuel ⟨bs, pos⟩ rem = .ok (vs.map (ofView bs)) := by
+  induction h with
+  | done off =>
+    intro fuel hf
+    cases fuel with
+    | zero => omega
+    | succ fuel => rw [eventLoop_zero]; rfl
+  | single off rem hz hr hl =>
+    intro fuel hf
+    cases fuel with
+    | zero => omega
+    | succ fuel =>
+      rw [eventLoop_step _ _ _ _ (by omega)]
+      unfold eventStep
+      rw [if_pos (by omega), if_pos hz, if_pos hr, if_pos hl]
+      rfl
+  | multi off rem size rest hsz hs hr hl _ ih =>
+    intro fuel hf
+    cases fuel with
+    | zero => omega
+    | succ fuel =>
+      rw [eventLoop_step _ _ _ _ (by omega)]
+      unfold eventStep
+      subst hsz
+      rw [if_pos (by omega), if_neg (by omega), if_pos hs, if_pos hr, if_pos hl,
+        ih fuel (by omega)]
+      rfl
+
+/-! ### event header: closed formula -/
+
+def eventFormula (bs : Bytes) : R EventPacket :=
+  if uintAt bs 0 4 ≠ EVENT_PREFIX_MAGIC then .err .invalidPacket else
+  if uintAt bs 6 2 ≠ Ack.EVENT_COMMAND_ID then .err .invalidPacket else
+  eventLoop (uintAt bs 8 2 + 1) ⟨bs, 12⟩ (uintAt bs 8 2) >>= fun scd =>
+  .ok ⟨⟨uintAt bs 4 2, uintAt bs 6 2, uintAt bs 8 2, uintAt bs 10 2⟩, scd⟩
+
+theorem event_parse_eq (bs : Bytes) (h : 12 ≤ bs.length) :
+    EventPacket.parse bs = eventFormula bs := by
+  by_cases hm : uintAt bs 0 4 = EVENT_PREFIX_MAGIC <;>
+  by_cases hc : uintAt bs 6 2 = Ack.EVENT_COMMAND_ID <;>
+  simp (disch := omega) only [EventPacket.parse, EventCcd.parse, eventFormula, readLE_ok,
+    Res.bind_ok, Res.bind_err, Res.pure_eq, Nat.zero_add, Nat.reduceAdd, hm, hc, ne_eq,
+    not_true_eq_false, not_false_eq_true, if_true, if_false]
+
+theorem event_parse_short (bs : Bytes) (h : bs.length < 12) : IsErr (EventPacket.parse bs) := by
+  by_cases hm : uintAt bs 0 4 = EVENT_PREFIX_MAGIC <;>
+  by_cases hc : uintAt bs 6 2 = Ack.EVENT_COMMAND_ID <;>
+  by_cases h4 : 4 ≤ bs.length <;> by_cases h6 : 6 ≤ bs.length <;>
+  by_cases h8 : 8 ≤ bs.length <;> by_cases h10 : 10 ≤ bs.length <;>
+  first
+  | (exfalso; omega)
+  | (simp (disch := omega) only [EventPacket.parse, EventCcd.parse, readLE_ok, readLE_err,
+      Res.bind_ok, Res.bind_err, Res.pure_eq, Nat.zero_add, Nat.reduceAdd, hm, hc, ne_eq,
+      not_true_eq_false, not_false_eq_true, if_true, if_false]
+     exact isErr_err _)
+
+/-! ### the reference encoder -/
+
+open CamVerif.C09 (uintAt_skip uintAt_here uintAt_all slice_skip slice_here slice_all)
+
+theorem encodeAck_fields (code cmd req : Nat) (scd : Bytes) (hcode : code < 2 ^ 16)
+    (hcmd : cmd < 2 ^ 16) (hreq : req < 2 ^ 16) (hlen : scd.length < 2 ^ 16) :
+    (encodeAck code cmd req scd).length = 12 + scd.length ∧
+    magicOf (encodeAck code cmd req scd) = ACK_MAGIC ∧
+    statusCodeOf (encodeAck code cmd req scd) = code ∧
+    commandIdOf (encodeAck code cmd req scd) = cmd ∧
+    scdLenOf (encodeAck code cmd req scd) = scd.length ∧
+    requestIdOf (encodeAck code cmd req scd) = req ∧
+    (encodeAck code cmd req scd).drop 12 = scd := by
+  have e1 : code % 65536 = code := Nat.mod_eq_of_lt hcode
+  have e2 : cmd % 65536 = cmd := Nat.mod_eq_of_lt hcmd
+  have e3 : req % 65536 = req := Nat.mod_eq_of_lt hreq
+  have e4 : scd.length % 65536 = scd.length := Nat.mod_eq_of_lt hlen
+  refine ⟨?_, ?_, ?_, ?_, ?_, ?_, ?_⟩
+  · simp [encodeAck]; omega
+  · simp [encodeAck, magicOf, uintAt_here, ACK_MAGIC]
+  · simp [encodeAck, statusCodeOf, uintAt_skip, uintAt_here, e1]
+  · simp [encodeAck, commandIdOf, uintAt_skip, uintAt_here, e2]
+  · simp [encodeAck, scdLenOf, uintAt_skip, uintAt_here, e4]
+  · simp [encodeAck, requestIdOf, uintAt_skip, uintAt_here, e3]
+  · have : encodeAck code cmd req scd =
+        (toLE 4 ACK_MAGIC ++ toLE 2 code ++ toLE 2 cmd ++ toLE 2 scd.length ++ toLE 2 req) ++ scd := by
+      simp [encodeAck]
+    rw [this]
+    exact List.drop_left' (by simp)
+
+theorem encodeValueScd_parse (v : Nat) (hv : v < 2 ^ 16) :
+    parseReservedU16 (encodeValueScd v) = .ok v := by
+  rw [parseReservedU16_eq]
+  have e : v % 65536 = v := Nat.mod_eq_of_lt hv
+  have hl : (encodeValueScd v).length = 4 := by simp [encodeValueScd]
+  have h0 : uintAt (encodeValueScd v) 0 2 = 0 := by simp [encodeValueScd, uintAt_here]
+  have h2 : uintAt (encodeValueScd v) 2 2 = v := by
+    simp [encodeValueScd, uintAt_skip, uintAt_all, e]
+  simp [hl, h0, h2]
+
+theorem encodeStackedScd_length (ls : List Nat) : (encodeStackedScd ls).length = 4 * ls.length := by
+  induction ls with
+  | nil => rfl
+  | cons l ls ih =>
+    simp only [encodeStackedScd, List.map_cons, List.flatten_cons, List.length_append,
+      List.length_cons] at ih ⊢
+    rw [ih]; simp [encodeValueScd]; omega
+
+theorem encodeStackedScd_ok (pre : Bytes) (ls : List Nat) (h : ∀ l ∈ ls, l < 2 ^ 16) :
+    StackedOk (pre ++ encodeStackedScd ls) pre.length ls.length ∧
+    stackedLengthsAt (pre ++ encodeStackedScd ls) pre.length ls.length = ls := by
+  induction ls generalizing pre with
+  | nil =>
+    refine ⟨⟨by simp [encodeStackedScd], fun i hi => by simp at hi⟩, ?_⟩
+    simp [stackedLengthsAt]
+  | cons l ls ih =>
+    have hl : l < 2 ^ 16 := h l (List.mem_cons_self ..)
+    have e : l % 65536 = l := Nat.mod_eq_of_lt hl
+    have hcons : encodeStackedScd (l :: ls) = encodeValueScd l ++ encodeStackedScd ls := by
+      simp [encodeStackedScd]
+    have ih' := ih (pre ++ encodeValueScd l) (fun x hx => h x (List.mem_cons_of_mem _ hx))
+    have hpl : (pre ++ encodeValueScd l).length = pre.length + 4 := by simp [encodeValueScd]
+    rw [hpl, List.append_assoc, ← hcons] at ih'
+    simp only [List.length_cons]
+    rw [stackedOk_succ, stackedLengthsAt_succ]
+    have hlen : pre.length + 4 ≤ (pre ++ encodeStackedScd (l :: ls)).length := by
+      simp only [List.length_append, encodeStackedScd_length, List.length_cons]; omega
+    have h0 : uintAt (pre ++ encodeStackedScd (l :: ls)) pre.length 2 = 0 := by
+      rw [hcons]; simp [encodeValueScd, uintAt_skip, uintAt_here]
+    have h2 : uintAt (pre ++ encodeStackedScd (l :: ls)) (pre.length + 2) 2 = l := by
+      rw [hcons]; simp [encodeValueScd, uintAt_skip, uintAt_here, e]
+    exact ⟨⟨hlen, h0, ih'.1⟩, by rw [h2, ih'.2]⟩
+
+/-- what the decoder must return for `encodeEvents` placed at offset `off` -/
+def expectedEvents (off : Nat) : List Event → Option Event → List EventScd
+  | [], none => []
+  | [], some e => [⟨0, e.id, e.timestamp, off + 12, e.data⟩]
+  | e :: es, last =>
+    ⟨12 + e.data.length, e.id, e.timestamp, off + 12, e.data⟩ ::
+      expectedEvents (off + (12 + e.data.length)) es last
+
+def EventOk (e : Event) : Prop :=
+  e.id < 2 ^ 16 ∧ e.timestamp < 2 ^ 64 ∧ 12 + e.data.length < 2 ^ 16
+
+theorem encodeEvent_length (e : Event) : (encodeEvent e).length = 12 + e.data.length := by
+  simp [encodeEvent]; omega
+
+theorem encodeSingleEvent_length (e : Event) :
+    (encodeSingleEvent e).length = 12 + e.data.length := by
+  simp [encodeSingleEvent]; omega
+
+theorem eventLoop_encoded (evs : List Event) (last : Option Event) :
+    ∀ (pre : Bytes) (fuel : Nat), (encodeEvents evs last).length < fuel →
+      (∀ e ∈ evs, EventOk e) → (∀ e, last = some e → EventOk e) →
+      eventLoop fuel ⟨pre ++ encodeEvents evs last, pre.length⟩ (encodeEvents evs last).length =
+        .ok (expectedEvents pre.length evs last) := by
+  induction evs with
+  | nil =>
+    intro pre fuel hf _ hlast
+    cases fuel with
+    | zero => omega
+    | succ fuel =>
+      cases last with
+      | none => simp [encodeEvents, expectedEvents, eventLoop_zero]
+      | some e =>
+        obtain ⟨hid, hts, hsz⟩ := hlast e rfl
+        simp only [encodeEvents, expectedEvents]
+        have hl := encodeSingleEvent_length e
+        rw [eventLoop_step _ _ _ _ (by omega)]
+        have h0 : uintAt (pre ++ encodeSingleEvent e) pre.length 2 = 0 := by
+          simp [encodeSingleEvent, uintAt_skip, uintAt_here]
+        have h2 : uintAt (pre ++ encodeSingleEvent e) (pre.length + 2) 2 = e.id := by
+          simp [encodeSingleEvent, uintAt_skip, uintAt_here]; exact hid
+        have h4 : uintAt (pre ++ encodeSingleEvent e) (pre.length + 4) 8 = e.timestamp := by
+          simp [encodeSingleEvent, uintAt_skip, uintAt_here]; exact hts
+        have hd : slice (pre ++ encodeSingleEvent e) (pre.length + 12)
+            ((encodeSingleEvent e).length - 12) = e.data := by
+          rw [slice_skip _ _ _ _ (by omega), hl]
+          simp only [encodeSingleEvent, List.append_assoc]
+          rw [slice_skip _ _ _ _ (by simp), slice_skip _ _ _ _ (by simp),
+            slice_skip _ _ _ _ (by simp)]
+          simp only [toLE_length]
+          have e0 : pre.length + 12 - pre.length - 2 - 2 - 8 = 0 := by omega
+          have e1 : 12 + e.data.length - 12 = e.data.length := by omega
+          rw [e0, e1]
+          exact slice_all _ _ rfl
+        unfold eventStep
+        rw [if_pos (by simp only [List.length_append, hl]; omega), if_pos h0,
+          if_pos (by omega), if_pos (by simp only [List.length_append]; omega), h2, h4, hd]
+  | cons e es ih =>
+    intro pre fuel hf hall hlast
+    cases fuel with
+    | zero => omega
+    | succ fuel =>
+      obtain ⟨hid, hts, hsz⟩ := hall e (List.mem_cons_self ..)
+      have hl := encodeEvent_length e
+      have hsz' : (12 + e.data.length) % 65536 = 12 + e.data.length := Nat.mod_eq_of_lt hsz
+      simp only [encodeEvents, expectedEvents, List.length_append] at hf ⊢
+      rw [eventLoop_step _ _ _ _ (by omega)]
+      have h0 : uintAt (pre ++ (encodeEvent e ++ encodeEvents es last)) pre.length 2 =
+          12 + e.data.length := by
+        simp [encodeEvent, uintAt_skip, uintAt_here, hsz']
+      have h2 : uintAt (pre ++ (encodeEvent e ++ encodeEvents es last)) (pre.length + 2) 2 =
+          e.id := by
+        simp [encodeEvent, uintAt_skip, uintAt_here]; exact hid
+      have h4 : uintAt (pre ++ (encodeEvent e ++ encodeEvents es last)) (pre.length + 4) 8 =
+          e.timestamp := by
+        simp [encodeEvent, uintAt_skip, uintAt_here]; exact hts
+      have hd : slice (pre ++ (encodeEvent e ++ encodeEvents es last)) (pre.length + 12)
+          (12 + e.data.length - 12) = e.data := by
+        rw [slice_skip _ _ _ _ (by omega)]
+        simp only [encodeEvent, List.append_assoc]
+        rw [slice_skip _ _ _ _ (by simp), slice_skip _ _ _ _ (by simp),
+          slice_skip _ _ _ _ (by simp)]
+        simp only [toLE_length]
+        have : pre.length + 12 - pre.length - 2 - 2 - 8 = 0 := by omega
+        rw [this]
+        exact slice_here _ _ _ (by omega)
+      have ih' := ih (pre ++ encodeEvent e) fuel (by omega)
+        (fun x hx => hall x (List.mem_cons_of_mem _ hx)) hlast
+      simp only [List.append_assoc, List.length_append, hl] at ih'
+      unfold eventStep
+      rw [h0, h2, h4, hd]
+      rw [if_pos (by simp only [List.length_append, hl]; omega), if_neg (by omega),
+        if_pos (by omega), if_pos (by rw [hl]; omega),
+        if_pos (by simp only [List.length_append, hl]; omega)]
+      have e1 : (encodeEvent e).length + (encodeEvents es last).length - (12 + e.data.length) =
+          (encodeEvents es last).length := by omega
+      rw [e1, ih']
+      rfl
+
+theorem encodeEventPacket_fields (flag req : Nat) (scd : Bytes) (hflag : flag < 2 ^ 16)
+    (hreq : req < 2 ^ 16) (hlen : scd.length < 2 ^ 16) :
+    (encodeEventPacket flag req scd).length = 12 + scd.length ∧
+    uintAt (encodeEventPacket flag req scd) 0 4 = EVENT_PREFIX_MAGIC ∧
+    uintAt (encodeEventPacket flag req scd) 4 2 = flag ∧
+    uintAt (encodeEventPacket flag req scd) 6 2 = Ack.EVENT_COMMAND_ID ∧
+    uintAt (encodeEventPacket flag req scd) 8 2 = scd.length ∧
+    uintAt (encodeEventPacket flag req scd) 10 2 = req := by
+  have e1 : flag % 65536 = flag := Nat.mod_eq_of_lt hflag
+  have e3 : req % 65536 = req := Nat.mod_eq_of_lt hreq
+  have e4 : scd.length % 65536 = scd.length := Nat.mod_eq_of_lt hlen
+  refine ⟨?_, ?_, ?_, ?_, ?_, ?_⟩
+  · simp [encodeEventPacket]; omega
+  · simp [encodeEventPacket, uintAt_here, EVENT_MAGIC, EVENT_PREFIX_MAGIC]
+  · simp [encodeEventPacket, uintAt_skip, uintAt_here, e1]
+  · simp [encodeEventPacket, uintAt_skip, uintAt_here, Spec.GenCPAck.EVENT_COMMAND_ID,
+      Ack.EVENT_COMMAND_ID]
+  · simp [encodeEventPacket, uintAt_skip, uintAt_here, e4]
+  · simp [encodeEventPacket, uintAt_skip, uintAt_here, e3]
 
 end CamVerif.C08
